@@ -136,15 +136,24 @@ Record ccase := mkcc {
      (* the same command line without the entries that name nothing: exit code, output, messages *)
   c_verbose : bool;                  (* the verbosity lets warnings through (default, INFO, WARNING, DEBUG) *)
   c_logs : list (Z * Z * list Z);
-     (* what the run reported: log records of level >= WARNING (30 40 50) and library warnings (25) as
-        (level, interned text, interned words) *)
+     (* what the run reported = what it printed: the log lines of level >= WARNING (30 40 50) and the library
+        warnings (25) in the text click's CliRunner captured, as (level, interned text, interned words) *)
   c_req_s : option (list Z); c_known_s : list Z; c_out_s : option (list Z);   (* samples: requested, in the data, in the output *)
   c_sel_i : option (list Z);         (* ids as listed by the user *)
   c_req_i : option (list Z); c_known_i : list Z; c_out_i : option (list Z);   (* ids: requested (+ target), in the data, in the output *)
   c_missing : list Z;                (* output files the subcommand documents that do not exist after the CLI run *)
   c_py_missing : list Z;             (* ... after the call of the Python entry point *)
-  c_index : option (list tline)
+  c_index : option (list tline);
      (* index --no-sort writing into an existing directory: what tabix sees of the data lines of the input *)
+  c_calls : list call;
+     (* the getLogger calls made in this process before the CLI run: earlier runs of the case (history, the
+        other runs of the case in their drawn order), oldest first *)
+  c_call : call;                     (* the CLI run's own: (subcommand, -v level, its sys.stderr) *)
+  c_recs : list (Z * Z);
+     (* the records created on the subcommand's logger during the CLI run: (level, interned text) *)
+  c_printed : list (Z * Z)
+     (* the log lines the CLI run printed (what click's CliRunner captured of stderr), parsed back into
+        (level, interned text) *)
 }.
 
 (* the entries of the output were asked for and exist; nothing else appears *)
@@ -263,7 +272,18 @@ Definition agree_index (k : ccase) : bool :=
     end
   end.
 
+(* what the run printed: every record created on the subcommand's logger appears among the printed
+   lines exactly when the model of haptools/logging.py says it is shown, given the getLogger calls made
+   earlier in the process (root logger at WARNING) *)
+Definition ROOT_LEVEL : Z := 30.
+Definition rec_eqb : Z * Z -> Z * Z -> bool := pair_eqb Z.eqb Z.eqb.
+Definition mem_rec (r : Z * Z) (l : list (Z * Z)) : bool := existsb (rec_eqb r) l.
+Definition agree_log (k : ccase) : bool :=
+  forallb (fun r => Bool.eqb (run_shows false ROOT_LEVEL (c_calls k) (c_call k) (fst r)) (mem_rec r (c_printed k)))
+          (c_recs k).
+
 Definition check_cli (k : ccase) : bool * bool :=
   (let '(e, o) := model_cli k in
-   (e =? c_exit k) && match o with Some o => zl_eqb o (c_out k) | None => true end && agree_index k,
+   (e =? c_exit k) && match o with Some o => zl_eqb o (c_out k) | None => true end && agree_index k
+   && agree_log k,
    holds_cli k).
